@@ -33,10 +33,11 @@ RULE = ('conv/*: every component tuple of length 1..5 over {0,1,9,10,99,100,'
         'c/pre/preview, rev/r, implicit post "-N", separators . - _, implicit '
         '0, upper case, leading zeros, outer whitespace); the second version '
         'of a pair is usually a neighbour of the first (only pre/post/dev/'
-        'epoch/trailing zeros/one segment changed). Oracle: own PEP 440 key on '
-        'the structure. Predicates: 1..3 comparisons over the six operators '
-        'with optional blanks; malformed predicates from a table x valid '
-        'context. Non-trivial: tuple containing 0 or 999 or of length >= 3; '
+        'epoch/trailing zeros/one segment changed). Oracle: own PEP 440 key '
+        'on the structure. Predicates: 1..3 comparisons over the six '
+        'operators with optional blanks; malformed predicates from a table x '
+        'valid context. Non-trivial: tuple containing 0 or 999 or of length '
+        '>= 3; '
         'version pair with equal zero-stripped release or differing major; '
         'predicate with >= 2 comparisons or a candidate equal/adjacent to a '
         'bound; every malformed/invalid string. Distinct by argument tuple.')
@@ -748,8 +749,10 @@ def predicate_table(col):
     from oslo_utils import versionutils as vu
     sub = 'predicate/table'
     base = (0, (2, 1), None, None, None)
-    cands = [(0, (2, 0, 9), None, None, None), (0, (2, 1), ('rc', 1), None, None),
-             (0, (2, 1), None, None, 0), base, (0, (2, 1, 0, 0), None, None, None),
+    cands = [(0, (2, 0, 9), None, None, None),
+             (0, (2, 1), ('rc', 1), None, None),
+             (0, (2, 1), None, None, 0), base,
+             (0, (2, 1, 0, 0), None, None, None),
              (0, (2, 1), None, 0, None), (0, (2, 1, 1), None, None, None),
              (1, (0, 1), None, None, None)]
     other = (0, (3,), None, None, None)
